@@ -664,6 +664,13 @@ func (s *sctpPlanned) SCTPRead(b []byte) (int, *sctp.SndRcvInfo, error) {
 	return 0, nil, io.EOF
 }
 func (s *sctpPlanned) SCTPWrite(b []byte, info *sctp.SndRcvInfo) (int, error) {
+	st := uint(0)
+	if info != nil {
+		st = uint(info.Stream)
+	}
+	s.p.mu.Lock()
+	s.p.streams = append(s.p.streams, st)
+	s.p.mu.Unlock()
 	return s.p.write(b, nil)
 }
 func (s *sctpPlanned) Close() error         { s.once.Do(func() { close(s.closed) }); return nil }
@@ -904,6 +911,18 @@ func checkFault(c FaultCase, w io.Writer, p *planner, want outcome, a *gen.Msg, 
 	}
 	if badOff != "" {
 		return ev.Failf("retry-wrong-offset", "%s: %s", desc, badOff)
+	}
+	// a message is whole on ONE stream: every transport write of it, the retried ones included,
+	// goes to the stream the caller named
+	if c.Transport == "stream" || c.Transport == "sctp" || c.Transport == "sctp-conn" {
+		p.mu.Lock()
+		streams := append([]uint{}, p.streams...)
+		p.mu.Unlock()
+		for k, st := range streams {
+			if st != uint(c.Stream) {
+				return ev.Failf("retry-on-another-stream", "%s, written with WriteToStreamWithRetry to stream %d: transport write #%d went to stream %d (streams of all writes: %v)", desc, c.Stream, k+1, st, streams)
+			}
+		}
 	}
 	if want.success {
 		if err != nil {
